@@ -27,7 +27,8 @@ def check(prog: Program, tier: str) -> Result:
             "certainly becomes observable - a join, a positional selection ([0], next, pop, most_common, min/max with "
             "key), an ordered accumulation that is later joined, a first-match exit, transaction numbering. Text that "
             "consists of import statements only is exempt iff fixes.sort_imports runs after every call of the "
-            "containing function in format_code (checked). Not decided: sets of AST nodes (address order), equal-key "
+            "containing function in format_code (checked). (R6.4) a keyed sort over a set of str tuples only forgets the set order if the key "
+            "contains every component (sorted() is stable: ties keep hash-seed order). Not decided: sets of AST nodes (address order), equal-key "
             "ties, determinism of black/sympy."),
         rule_text="instances = dispatch clauses, sort-key components, exposure sites of str-set iteration order; non-trivial = sinks",
     )
@@ -38,7 +39,7 @@ def check(prog: Program, tier: str) -> Result:
     _r6_2(prog, res)
     _r6_3(prog, res)
     _r6_4(prog, res)
-    res.floors.update({"R6.1": 5, "R6.2": 3, "R6.3": 3, "R6.4": 2})
+    res.floors.update({"R6.1": 5, "R6.2": 3, "R6.3": 3, "R6.4": 1})
     return res
 
 
@@ -231,16 +232,18 @@ def _unordered(e: ast.AST, fn: Func, depth: int = 0) -> Optional[ast.AST]:
     return None
 
 
-def _tuple_arity(e: ast.AST, fn: Func) -> Optional[ast.Tuple]:
+def _tuple_arity(e: ast.AST, fn: Func, depth: int = 0) -> Optional[ast.Tuple]:
     """The tuple expression that builds the elements held by the collection e, if they are built syntactically in fn."""
+    if depth > 4:
+        return None
     if isinstance(e, (ast.SetComp, ast.ListComp, ast.GeneratorExp)) and isinstance(e.elt, ast.Tuple):
         return e.elt
     if isinstance(e, (ast.Set, ast.List)) and e.elts and all(isinstance(x, ast.Tuple) for x in e.elts):
         return e.elts[0]
     if isinstance(e, ast.Call) and isinstance(e.func, ast.Name) and e.func.id in ("set", "frozenset", "list", "sorted") and e.args:
-        return _tuple_arity(e.args[0], fn)
+        return _tuple_arity(e.args[0], fn, depth + 1)
     if isinstance(e, ast.BinOp):
-        return _tuple_arity(e.left, fn) or _tuple_arity(e.right, fn)
+        return _tuple_arity(e.left, fn, depth + 1) or _tuple_arity(e.right, fn, depth + 1)
     base = e.value if isinstance(e, ast.Subscript) else e
     if isinstance(base, ast.Name):
         for n in walk_own(fn.node):
@@ -257,7 +260,7 @@ def _tuple_arity(e: ast.AST, fn: Func) -> Optional[ast.Tuple]:
                     return n.args[0].elt
         for _stmt, v in bindings(fn).get(base.id, []):
             if v is not None and not isinstance(v, ast.Name):
-                a = _tuple_arity(v, fn)
+                a = _tuple_arity(v, fn, depth + 1)
                 if a:
                     return a
     return None
@@ -400,7 +403,7 @@ VARIANTS = [
 
 META = {
     "design_ref": "DESIGN.md section 3, C06",
-    "technique": "def-use / version check of the parallel dispatch, shape analysis of the schedule sort key, typed taint of str-set iteration order into order-observing sinks with a checked sanitiser",
+    "technique": "def-use / version check of the parallel dispatch, shape analysis of the schedule sort key, typed taint of str-set iteration order into order-observing sinks with a checked sanitiser; injectivity of sort keys over sets of str tuples",
     "level_text": ("Decides on the current source that parallel dispatch pairs results with inputs in a fixed sorted order, "
                    "that the rewrite schedule is totally ordered independently of yield order, and that the iteration order "
                    "of no statically recognisable set of str reaches a join, a positional choice, an ordered accumulation "
